@@ -15,6 +15,7 @@ from ..prng import sub
 from .c01 import draw_fmt, fmt_tag
 
 ID = "C17"
+PROBES = ['probe_mutation_after_comparison', 'probe_uncopyable_value', 'sites_judged']  # reach probes: counters that must be non-zero in a run (a zero is printed and recorded)
 LEVEL = "exploration"
 BUDGET = {"quick": 1500, "thorough": 60000}
 WALL = {"quick": 240, "thorough": 3000}
